@@ -8,10 +8,10 @@ import time
 
 import vcore as V
 
-SCHED_CFGS = {"quick": ["MC_C02_cold.cfg", "MC_C02_dirs.cfg", "MC_C02_regrender.cfg", "MC_C02_reload.cfg"],
-              "thorough": ["MC_C02_cold.cfg", "MC_C02_dirs.cfg", "MC_C02_regrender.cfg", "MC_C02_reload.cfg"]}
-INV_CFGS = {"quick": ["MC_C02_regrender3.cfg"], "thorough": ["MC_C02_cold3.cfg", "MC_C02_dirs3.cfg", "MC_C02_regrender3.cfg", "MC_C02_reload3.cfg"]}
-DEVIATIONS = ["MC_C02_dev_early.cfg", "MC_C02_dev_paths.cfg", "MC_C02_dev_cur.cfg"]
+SCHED_CFGS = {"quick": ["MC_C02_cold.cfg", "MC_C02_dirs.cfg", "MC_C02_regrender.cfg", "MC_C02_reload.cfg", "MC_C02_regcold.cfg"],
+              "thorough": ["MC_C02_cold.cfg", "MC_C02_dirs.cfg", "MC_C02_regrender.cfg", "MC_C02_reload.cfg", "MC_C02_regcold.cfg"]}
+INV_CFGS = {"quick": ["MC_C02_regrender3.cfg"], "thorough": ["MC_C02_cold3.cfg", "MC_C02_dirs3.cfg", "MC_C02_regrender3.cfg", "MC_C02_reload3.cfg", "MC_C02_regcold3.cfg"]}
+DEVIATIONS = ["MC_C02_dev_early.cfg", "MC_C02_dev_paths.cfg", "MC_C02_dev_cur.cfg", "MC_C02_dev_blind.cfg"]
 
 
 def twig_races(stderr_text):
@@ -161,7 +161,7 @@ def run(prop, tier, seed, opts):
                 res = V.run_tlc(scratch, "Concurrency", cfg, workers=4, timeout=600, sub="dev-" + cfg)
                 if "is violated" not in res["out"]:
                     raise V.Broken("deviation config %s did not produce a counterexample" % cfg)
-            dev_info = "EarlyTokPut / UnguardedPaths / SharedCurrent each violate an invariant (as intended)"
+            dev_info = "EarlyTokPut / UnguardedPaths / SharedCurrent / BlindInsert each violate an invariant (as intended)"
             bad = scratch.path("bad-history.ndjson")
             with open(bad, "w") as f:
                 f.write(json.dumps({"g": 1, "op": "register", "n": "v1", "ver": 1, "got": 0, "call": 1, "ret": 2, "ok": True}) + "\n")
